@@ -36,7 +36,7 @@ import (
 )
 
 func init() {
-	vlib.Register("C10", "exploration", runC10)
+	vlib.Register("C10", "model_checking", runC10)
 	vlib.Workers["c10fast"] = c10FastWorker
 }
 
